@@ -84,11 +84,14 @@ def make_case(seed, tier):
     else:
         knobs = gen.Knobs(items=r.choice([3, 5]), members=r.choice([4, 8]), ns_depth=r.choice([1, 2]), inst_len=3)
         g = gen.WildGen(seed, knobs, multiline_defaults=False, typedefs=True, typedef_same_ns=True, param_use=0.3, this_use=0.05,
-                        class_template_p=0.3, operators=False, dunders=False, includes=False, special_names=0.05)
+                        class_template_p=0.3, operators=False, dunders=False, includes=False, special_names=0.15)
         mod = g.module()
         kind = 'wild'
     ser = r.random() < 0.4
     return mod, {'ser': ser, 'ignore': [], 'kind': kind}
+
+
+USER_NAMED = set()      # simple class names whose *declaration* has a member called string_serialize / string_deserialize
 
 
 def check_toolbox(tb, acc, expect_ids=None):
@@ -170,7 +173,8 @@ def identity_mismatch(s, r):
             return 'routine is a %s' % r['role']
         if r.get('collector') != s['collector']:
             return 'erases from collector_%s' % r.get('collector')
-    elif role in ('method', 'static') and s.get('member') in ('string_serialize', 'string_deserialize'):
+    elif role in ('method', 'static') and s.get('member') in ('string_serialize', 'string_deserialize') and \
+            s.get('class') not in USER_NAMED:
         want = 'serialize' if s['member'] == 'string_serialize' else 'deserialize'
         if r['role'] != want:
             return 'routine is a %s' % r['role']
@@ -229,9 +233,16 @@ def run_case(seed, tier, acc):
         acc.count('wild_generation_failed(decided by C10)')
         return [], text, opts
     acc.count('contract:_update_wrapper_id', CONTRACT['evals'] - before)
+    USER_NAMED.clear()
     exp = None
     try:
-        exp = ref_matlab.Expect(mod, 'modx', opts['ignore'], opts['ser']).nids
+        E = ref_matlab.Expect(mod, 'modx', opts['ignore'], opts['ser'])
+        exp = E.nids
+        for d in (E.classes.values() if isinstance(E.classes, dict) else E.classes):
+            if any(getattr(m, 'name', None) in ('string_serialize', 'string_deserialize') for m in d['model'].members):
+                # an ordinary member that happens to carry the name of the generated serialization support: its
+                # call sites lead to ordinary routines
+                USER_NAMED.add(d['name'])
     except Exception:
         acc.count('reference_count_unavailable')
     vs = check_toolbox(tb, acc, exp)
